@@ -15,12 +15,12 @@ ASSUMPTIONS = ["bond graph = written bonds + constraints + bond edges of the app
 CASE_TIMEOUT = 60
 WALL = {"quick": 900, "thorough": 7200}
 REQUIRED = {"pairs_checked": 20000, "mixed_cases": 150, "uniform_cases": 150, "generated_exclusions_seen": 200,
-            "explicit_block_exclusions": 20, "three_level_cases": 80, "explicit_atom_id_links": 60}
+            "explicit_block_exclusions": 20, "three_level_cases": 80, "explicit_atom_id_links": 60, "library_cases": 100}
 
 
 def plan(tier, seed):
     n = 4000 if tier == "quick" else 50000
-    return [["excl", i] for i in range(n)]
+    return [["excl", i] for i in range(n)] + [["library", i] for i in range(n // 8)]
 
 
 def setup():
@@ -29,6 +29,8 @@ def setup():
 
 def run_case(cid, rng, workdir):
     res = new_result()
+    if cid[0] == "library":
+        return run_library(cid, rng, workdir, res)
     case = paramcase.build(rng, profile="sensible", nmin=2, nmax=7, max_links=4, three_levels=True, p_uniform=0.3,
                            p_explicit=0.25, layouts=["ff", "ff", "ff+itp", "itp+ff", "itp_dangling"])
     # explicit exclusions inside .ff blocks (pure .ff layouts only: an .itp finalisation would turn them into edges)
@@ -51,6 +53,24 @@ def run_case(cid, rng, workdir):
         violation(res, "rejects-valid-input:%s" % ev["run"].get("exc_type"), "gen_params raised %s" % ev["run"]["error"],
                   PC.witness(case))
         return res
+    return judge(case, ev, res)
+
+
+def run_library(cid, rng, workdir, res):
+    """shipped libraries: multi-atom exclusion rows, exclusions defined by links, virtual sites; mostly one distance"""
+    case = PC.build_library_case(rng)
+    ev = PC.evaluate_library(case, workdir)
+    res["sig"] = sig_of([case["lib"], case["graph"]])
+    res["sample"] = case["descr"]
+    if ev["ref"] is None or ev["run"]["status"] != "ok":
+        res["status"] = "rejected"
+        return res
+    bump(res, "library_cases")
+    note(res, "libraries", case["lib"])
+    return judge(case, ev, res)
+
+
+def judge(case, ev, res):
     ref, obs = ev["ref"], ev["obs"]
     used = sorted({ref["excl_of"][a["idx"]] for a in ref["atoms"]})
     mixed = len(used) > 1
